@@ -15,6 +15,39 @@ import traceback
 import warnings
 
 
+def _tuplify(x):
+    return tuple(_tuplify(y) for y in x) if isinstance(x, list) else x
+
+
+def replay_any(mod, modname, rec):
+    """Replay a saved record: check-specific records through the module, a recorded library failure by running
+    the shard again."""
+    from vf import core
+    if rec.get('kind') == 'library_call_fails_inside_check':
+        if 'shard' in rec['input']:
+            st = core._worker((modname, _tuplify(rec['input']['shard'])))
+            return [r for r in st.violations if r.get('kind') == 'library_call_fails_inside_check']
+        if 'selftest' in rec['input']:
+            try:
+                mod.selftest()
+            except Exception as e:
+                r = core.library_failure_record(e, modname, {'selftest': True})
+                if r is None:
+                    raise
+                return [r]
+            return []
+        path = os.path.join(core.HERE, rec['input']['replay_of'])
+        rec = json.load(open(path))
+    try:
+        return mod.replay(rec)
+    except Exception as e:
+        name = rec.get('_file') or rec.get('key') or rec.get('kind')
+        r = core.library_failure_record(e, modname, {'replay_of': rec.get('_file', ''), 'record': str(name)[:200]})
+        if r is None:
+            raise
+        return [r]
+
+
 def main(argv=None):
     ap = argparse.ArgumentParser()
     ap.add_argument('prop')
@@ -40,7 +73,7 @@ def main(argv=None):
 
         if a.replay:
             rec = json.load(open(a.replay))
-            recs = mod.replay(rec)
+            recs = replay_any(mod, modname, rec)
             bad = [r for r in recs if kf.match(r) is None]
             for r in recs:
                 print('replay:', json.dumps({k: r.get(k) for k in ('kind', 'expected', 'observed')},
@@ -54,13 +87,20 @@ def main(argv=None):
         total = core.Stats()
         # 1. oracle self-test
         if hasattr(mod, 'selftest'):
-            mod.selftest()
+            try:
+                mod.selftest()
+            except Exception as e:
+                r = core.library_failure_record(e, modname, {'selftest': True})
+                if r is None:
+                    raise
+                core.report(total, prop, r)
         # 2. replay tier: saved regression inputs
         replayed = 0
         for path in sorted(glob.glob(os.path.join(core.HERE, 'replays', prop, '*.json'))):
             rec = json.load(open(path))
+            rec['_file'] = os.path.relpath(path, core.HERE)
             replayed += 1
-            for r in mod.replay(rec):
+            for r in replay_any(mod, modname, rec):
                 core.report(total, prop, r)
         total.info['replayed_files'] = replayed
         # 3. witnesses of open known findings
@@ -68,7 +108,7 @@ def main(argv=None):
         for e in kf.entries:
             still = 0
             for w in e.get('witnesses', []):
-                recs = mod.replay(w)
+                recs = replay_any(mod, modname, w)
                 if any(kf.match(r) == e['id'] for r in recs):
                     still += 1
                 for r in recs:
